@@ -165,6 +165,22 @@ def key_canonicity(rep: Report, prog: Program) -> None:
     pn = prog.func("Prefix.__new__")
     first_if = next((s for s in pn.node.body if isinstance(s, ast.If)), None)
     txt = ast.unparse(first_if.test).replace(" ", "") if first_if is not None else ""
+    # the test may sit in a one-expression predicate of the class: `cls._is_identity(base, exponent)`
+    t_ = first_if.test if first_if is not None else None
+    if isinstance(t_, ast.Call) and isinstance(t_.func, ast.Attribute) and isinstance(t_.func.value, ast.Name) and t_.func.value.id in ("cls", "Prefix") \
+            and f"Prefix.{t_.func.attr}" in prog.functions and not t_.keywords:
+        h_ = prog.functions[f"Prefix.{t_.func.attr}"]
+        hb_ = [x for x in h_.node.body if not (isinstance(x, ast.Expr) and isinstance(x.value, ast.Constant))]  # type: ignore[attr-defined]
+        hp_ = h_.params() if h_.is_static else h_.params()[1:]
+        if len(hb_) == 1 and isinstance(hb_[0], ast.Return) and hb_[0].value is not None and len(hp_) == len(t_.args) \
+                and all(isinstance(a, ast.Name) for a in t_.args):
+            import copy as _cp
+            ren_ = {p_: a.id for p_, a in zip(hp_, t_.args)}  # type: ignore[union-attr]
+            e_ = _cp.deepcopy(hb_[0].value)
+            for x in ast.walk(e_):
+                if isinstance(x, ast.Name) and x.id in ren_:
+                    x.id = ren_[x.id]
+            txt = ast.unparse(e_).replace(" ", "")
     ok = ("exponent==0" in txt and first_if is not None and isinstance(first_if.body[-1], ast.Return)
           and ast.unparse(first_if.body[-1].value or ast.Constant(None)) == "IdentityPrefix")
     rep.check("R02.1", "Prefix.__new__:identity", ok,
